@@ -159,7 +159,19 @@ def pool():
 
     def boom(t):
         raise ZeroDivisionError('user failure inside a spec')
-    from glom import Ref, Glommer
+    from glom import Ref, Glommer, A, Vars, GlomError
+
+    class Uncopyable(GlomError):
+        def __init__(self, code, detail):
+            GlomError.__init__(self, 'code %s' % code)      # args has one element, the constructor needs two
+            self.detail = detail
+
+        def get_message(self):
+            return 'uncopyable error %s' % (self.args,)
+
+    def raise_uncopyable(t):
+        raise Uncopyable(7, 'detail')
+    shared_vars = (S(v=Vars({'owner': None})), A.v.owner, Y('v1'), S.v.owner, Y('v2'), {'owner': S.v.owner})
     tree = lambda: {'v': 1, 'kids': [{'v': 2, 'kids': []}]}
     gm = Glommer()
     gm.register(P.UA, get=lambda o, k: 'glommer-handler:%s' % k)
@@ -179,6 +191,11 @@ def pool():
         # two DIFFERENT recursive specs that use the same Ref name
         ('ref-tree-1', tree, Ref('node', {'v': ('v', Y('r1')), 'kids': ('kids', [Ref('node')])})),
         ('ref-tree-2', tree, Ref('node', {'val': (Y('r2'), 'v'), 'tag': Val('B'), 'sub': ('kids', [Ref('node')])})),
+        # ONE spec object with scope variables: written, a scheduling point, read back
+        ('shared-vars-1', lambda: 'first-owner', shared_vars),
+        ('shared-vars-2', lambda: 'second-owner', shared_vars),
+        # a user-defined GlomError subclass that cannot be copied (constructor signature differs from .args), raised below two levels
+        ('fail-uncopyable-glomerror', lambda: {'a': {'b': 1}}, ('a', Y('q1'), raise_uncopyable)),
         # calls made through a Glommer with a registry of its own (the module-level registry treats these types differently)
         ('glommer-type-1', lambda: P.UA(), ('x', Y('m1')), gm.glom),
         ('glommer-type-2', lambda: {'o': P.UB(), 'l': [P.UA()]}, {'v': ('o', Y('m2'), 'x'), 'w': ('l', Y('m3'), ['x'])}, gm.glom),
@@ -374,13 +391,13 @@ def compress(trace):
     return out
 
 
-PAIRS = [(0, 1), (0, 0), (2, 3), (2, 2), (4, 5), (4, 4), (6, 6), (7, 8), (0, 7), (6, 2), (4, 0), (5, 8), (9, 10), (9, 9), (11, 7), (12, 13), (14, 4), (15, 5)]
+PAIRS = [(0, 1), (0, 0), (2, 3), (2, 2), (4, 5), (4, 4), (6, 6), (7, 8), (0, 7), (6, 2), (4, 0), (5, 8), (9, 10), (9, 9), (11, 7), (12, 13), (14, 15), (14, 4), (15, 5), (16, 7), (17, 4), (18, 5)]
 
 
 def gen_lines(tier):
     """preemption bound 1: `first` pauses at its k-th line point, `second` runs to completion, `first` resumes"""
     cases = []
-    pairs = PAIRS[:16] if tier == 'quick' else [(i, j) for i in range(len(pool())) for j in range(len(pool())) if i <= j]
+    pairs = PAIRS[:17] if tier == 'quick' else [(i, j) for i in range(len(pool())) for j in range(len(pool())) if i <= j]
     step = 2 if tier == 'quick' else 1
     for i, j in pairs:
         for first, second, idx in ((0, 1, i), (1, 0, j)):
@@ -425,6 +442,19 @@ def gen_calls(tier):
 # ---------------------------------------------------------------------------
 # (c) re-entrancy
 
+def sorted_repr(v):
+    """the library prints dicts with sorted keys"""
+    if isinstance(v, dict):
+        try:
+            keys = sorted(v)
+        except TypeError:
+            keys = list(v)
+        return '{' + ', '.join('%s: %s' % (sorted_repr(k), sorted_repr(v[k])) for k in keys) + '}'
+    if isinstance(v, list):
+        return '[' + ', '.join(sorted_repr(x) for x in v) + ']'
+    return repr(v)
+
+
 def run_reentrant(case):
     chain, catch = case
 
@@ -434,6 +464,7 @@ def run_reentrant(case):
         from glom import glom, GlomError, T
         p = pool()
         records = []
+        traces = []
 
         def make(level):
             name, mk, spec = p[chain[level]][:3]
@@ -455,11 +486,17 @@ def run_reentrant(case):
                 full = spec
 
             def run():
+                target = mk()
                 try:
-                    res = caller(mk(), full)
+                    res = caller(target, full)
                     out = ['ok', scrub(repr(res))]
                 except GlomError as e:
                     out = ['err', type(e).__name__, scrub(str(e))]
+                    # the message of the error leaving THIS call starts with this call's own root target
+                    tlines = [l for l in str(e).splitlines() if l.startswith(' - Target: ')]
+                    shown = tlines[0][len(' - Target: '):][:30] if tlines else None
+                    own = shown is not None and shown in (repr(target)[:30], sorted_repr(target)[:30])
+                    traces.append((level, own, tlines[:1], repr(target)[:30]))
                     records.append((level, out))
                     raise
                 except Exception as e:
@@ -473,10 +510,14 @@ def run_reentrant(case):
             make(0)()
         except Exception:
             pass
-        return records
-    records = in_child(work)
+        return records, traces
+    records, traces = in_child(work)
     where = {'chain': chain, 'inner_failures_caught': catch}
-    fails = {7, 8, 11}
+    fails = {7, 8, 11, 16}
+    for level, own, tlines, trepr in traces:
+        if not own:
+            return R({'expected': 'the error leaving level %d begins its trace with that call\'s own root target %s' % (level, trepr),
+                      'observed': 'first Target line: %r' % (tlines,), 'chain': chain, 'inner_failures_caught': catch}, 'foreign-trace')
     for level, out in records:
         i = chain[level]
         alone = ALONE[('callables', i)][0]
